@@ -127,6 +127,49 @@ Proof.
   now rewrite (shift_down_unfault _ _ _ _ _ _ _ E Hn).
 Qed.
 
+(* ---------- without a plan nothing faults (positional operations) ---------- *)
+Lemma shift_up_None : forall n key st st' p' o, shift_up n key None st = (st', p', o) -> p' = None /\ o <> Faulted.
+Proof.
+  induction n as [|m IH]; intros key st st' p' o H; simpl in H.
+  - inversion H; subst. split; auto; discriminate.
+  - destruct (assign_move st None (key + S m) (key + m)) as [[st1 p1] o1] eqn:E.
+    destruct (assign_move_None_plan _ _ _ _ _ _ E) as (-> & NF).
+    destruct o1; try (inversion H; subst; split; auto; discriminate).
+    + eapply IH; eauto.
+    + exfalso; apply NF; reflexivity.
+Qed.
+
+Lemma shift_down_None : forall n key st st' p' o, shift_down n key None st = (st', p', o) -> p' = None /\ o <> Faulted.
+Proof.
+  induction n as [|m IH]; intros key st st' p' o H; simpl in H.
+  - inversion H; subst. split; auto; discriminate.
+  - destruct (assign_move st None key (S key)) as [[st1 p1] o1] eqn:E.
+    destruct (assign_move_None_plan _ _ _ _ _ _ E) as (-> & NF).
+    destruct o1; try (inversion H; subst; split; auto; discriminate).
+    + eapply IH; eauto.
+    + exfalso; apply NF; reflexivity.
+Qed.
+
+Lemma emplace_None key v st st' o : emplace None key v st = (st', o) -> o <> Faulted.
+Proof.
+  unfold emplace. destruct (cap st <=? size st); [intros [= <- <-]; discriminate|].
+  destruct (size st <? key); [intros [= <- <-]; discriminate|].
+  destruct (shift_up (size st - key) key None st) as [[st1 p1] o1] eqn:E.
+  destruct (shift_up_None _ _ _ _ _ _ E) as (-> & NF).
+  destruct o1; try (intros [= <- <-]; exact NF).
+  destruct (assign_val st1 None key v) as [[st2 p2] o2] eqn:E2.
+  destruct (assign_val_None_plan _ _ _ _ _ _ E2) as (_ & NF2).
+  destruct o2; intros [= <- <-]; try exact NF2; discriminate.
+Qed.
+
+Lemma erase_None key st st' o : erase None key st = (st', o) -> o <> Faulted.
+Proof.
+  unfold erase. destruct (size st <=? key); [intros [= <- <-]; discriminate|].
+  destruct (shift_down (Nat.min (size st) (cap st) - S key) key None st) as [[st1 p1] o1] eqn:E.
+  destruct (shift_down_None _ _ _ _ _ _ E) as (_ & NF).
+  destruct o1; intros [= <- <-]; try exact NF; discriminate.
+Qed.
+
 (* ---------- what a throw can leave behind ---------- *)
 (* [1,2] in capacity 3, emplace(begin(), 9), the second element move throws: the first move has already taken the
    value out of slot 1, which is inside the live range: the container shows  1, <moved-from>. *)
